@@ -14,7 +14,7 @@ use std::time::Duration;
 pub struct C17;
 
 const TRANSPORTS: [&str; 3] = ["tcp4", "tcp6", "ipc"];
-const PREFIXES: [&str; 5] = ["bound", "bound+peers", "connected-out", "mid-traffic", "pending-handshake"];
+const PREFIXES: [&str; 6] = ["bound", "bound+peers", "connected-out", "mid-traffic", "pending-handshake", "connect-abandoned"];
 
 struct Findings {
     v: Vec<(String, String)>,
@@ -41,6 +41,25 @@ async fn rig_case(ty: &str, transport: &str, prefix: &str, how: &str) -> Finding
         ($($a:tt)*) => {{ f.inconclusive.push(format!($($a)*)); return f; }};
     }
     match prefix {
+        "connect-abandoned" => {
+            // connecting out to a peer that accepts and then says nothing; the application
+            // gives up on connect() (a timeout), later closes or drops the socket
+            let (l, ep) = match RawListener::bind(transport).await {
+                Ok(x) => x,
+                Err(e) => bail!("raw listener: {e}"),
+            };
+            let (c, a) = tokio::join!(tokio::time::timeout(Duration::from_millis(60), sock.connect(&ep)), async {
+                tokio::time::timeout(WAIT, l.accept()).await
+            });
+            if c.is_ok() {
+                bail!("connect() returned although the peer never spoke: {c:?}");
+            }
+            match a {
+                Ok(Ok(r)) => raws.push(r),
+                other => bail!("raw accept: {:?}", other.map(|x| x.map(|_| ()))),
+            }
+            _listener = Some(l);
+        }
         "connected-out" => {
             let (l, ep) = match RawListener::bind(transport).await {
                 Ok(x) => x,
@@ -259,6 +278,22 @@ async fn mirror(ctx: &mut Ctx, ty: &str, state: &str, how: &str, case: &Value) {
         "after-traffic" => {
             let _ = exchange_with(&mut sock, &peers[0], 1).await;
         }
+        "duplicate-identity-replaced" => {
+            // a third connection announces the identity of the first while that one is still open
+            match Peer::attach(&sock, peer_type_for(ty), Some(b"m0")).await {
+                Ok(p) => {
+                    peers.push(p);
+                    ctx.count("mirror_connection_replaced_by_same_identity");
+                }
+                Err(e) => {
+                    ctx.inconclusive(format!("C17 mirror attach: {e}"));
+                    return;
+                }
+            }
+            if sock.can_recv() && ty != "REQ" {
+                let _ = recv_now(&mut sock).await;
+            }
+        }
         "peer-stalled-with-full-buffer" => {
             // one peer stops accepting data while the socket keeps sending to it
             if ty == "PUB" || ty == "XPUB" {
@@ -344,7 +379,7 @@ impl Prop for C17 {
     fn cases(&self, tier: Tier, seed: u64) -> Vec<Value> {
         let mut v = Vec::new();
         for ty in ALL_TYPES {
-            for state in ["idle", "recv-pending-dropped", "after-traffic", "peer-stalled-with-full-buffer"] {
+            for state in ["idle", "recv-pending-dropped", "after-traffic", "peer-stalled-with-full-buffer", "duplicate-identity-replaced"] {
                 for how in ["close", "drop"] {
                     v.push(json!({"kind": "mirror", "ty": ty, "state": state, "how": how}));
                 }
@@ -411,9 +446,11 @@ impl Prop for C17 {
 
     fn floors(&self, _tier: Tier) -> Vec<(&'static str, u64)> {
         vec![
-            ("mirror_cases", 72),
+            ("mirror_cases", 90),
+            ("mirror_connection_replaced_by_same_identity", 18),
             ("mirror_stalled_peer_with_data_queued", 10),
-            ("rig_cases", 270),
+            ("rig_cases", 324),
+            ("rig_prefix/connect-abandoned", 54),
             ("rig_transport/tcp4", 90),
             ("rig_transport/tcp6", 10),
             ("rig_transport/ipc", 10),
